@@ -411,6 +411,40 @@ fn script(msg: &[u8], t: &mut T) {
         }
     }
     let _ = write!(t.s, "it{};", n);
+    // every iterator must END, also for a caller that keeps pulling after an error (count(), flatten(),
+    // a `continue` in the loop): more items than any message can hold means it never ends
+    {
+        let mut endless = |what: &str, n: usize| {
+            if n >= LIMIT {
+                t.errs.push(format!("iterator-never-ends-when-pulled-past-an-error|{what}"));
+            }
+        };
+        endless("Message::iter", m.iter().take(LIMIT).count());
+        endless("Message::question", m.question().take(LIMIT).count());
+        endless("Message::zone", m.zone().take(LIMIT).count());
+        if let Ok(s) = m.answer() {
+            endless("RecordSection(answer)", s.take(LIMIT).count());
+            endless("RecordIter(answer)", s.limit_to::<AllRecordData<_, _>>().take(LIMIT).count());
+            endless("AnyRecordIter(answer)", s.into_records::<AllRecordData<_, _>>().take(LIMIT).count());
+        }
+        if let Ok(s) = m.authority() {
+            endless("RecordSection(authority)", s.take(LIMIT).count());
+            endless("RecordIter(authority)", s.limit_to::<Soa<_>>().take(LIMIT).count());
+        }
+        if let Ok(s) = m.additional() {
+            endless("RecordSection(additional)", s.take(LIMIT).count());
+            endless("RecordIter(additional)", s.limit_to::<Opt<_>>().take(LIMIT).count());
+        }
+        if let Ok(s) = m.prerequisite() {
+            endless("RecordSection(prerequisite)", s.take(LIMIT).count());
+        }
+        if let Ok(s) = m.update() {
+            endless("RecordSection(update)", s.take(LIMIT).count());
+        }
+        if let Some(opt) = m.opt() {
+            endless("OptIter", opt.opt().iter::<AllOptData<_, _>>().take(LIMIT).count());
+        }
+    }
     // helpers
     let _ = write!(t.s, "xfr{};", m.is_xfr() as u8);
     if let Some(q) = m.first_question() {
